@@ -24,7 +24,12 @@ import (
 	"verif/harness/internal/vutil"
 )
 
-const gasLimit = 10000000
+// Gas per program: far above what any generated program needs under the reference semantics, small enough that
+// even a program that loops on changed code ends after some ten thousand steps.
+const gasLimit = 400000
+
+// maxEvents bounds the trace of one driver process (a harness error beyond it: the check ends inconclusive).
+const maxEvents = 600000
 
 type tlcProg struct {
 	Code   []int   `json:"code"`
@@ -73,6 +78,7 @@ func runProgram(src string, code, data []byte) (status string, ret []byte) {
 	tr.Emit(map[string]interface{}{"event": "Begin", "run": runID, "src": src, "code": eu.ByteInts(code),
 		"data": eu.ByteInts(data), "depth": 1})
 	rec.BeginRun(runID)
+	rec.Cancel = evm.Cancel
 	var err error
 	func() {
 		defer func() {
@@ -84,7 +90,13 @@ func runProgram(src string, code, data []byte) (status string, ret []byte) {
 	}()
 	cls := eu.ErrClass(err)
 	tr.Emit(map[string]interface{}{"event": "End", "run": runID, "depth": 1, "err": cls, "ret": eu.ByteInts(ret),
-		"steps": rec.Steps})
+		"steps": rec.Steps, "cancelled": rec.Cancelled, "truncated": rec.Truncated})
+	if tr.N > maxEvents {
+		vutil.Fatalf("trace budget of %d events exceeded", maxEvents)
+	}
+	if rec.Truncated {
+		stats["truncated_runs"]++
+	}
 	stats["programs"]++
 	stats["steps"] += rec.Steps
 	switch {
@@ -93,6 +105,9 @@ func runProgram(src string, code, data []byte) (status string, ret []byte) {
 	case cls == "revert":
 		status = "revert"
 	default:
+		if cls == "gasoverflow" {
+			cls = "oog" // the reference has one class for a memory range no gas can pay
+		}
 		status = "fault:" + cls
 	}
 	return status, ret
@@ -642,7 +657,65 @@ func flowAndCopyPrograms() [][]byte {
 	}
 	m.Op(eu.MSIZE, eu.POP)
 	progs = append(progs, m.Bytes())
-	return append(progs, zeroLengthPrograms()...)
+	progs = append(progs, zeroLengthPrograms()...)
+	return append(progs, wideLowPrograms()...)
+}
+
+// wideLowPrograms: for every operand the implementation narrows to 64 bits, a wide value whose low 64 bits
+// are a perfectly valid small operand (2^64+x, 2^128+x, 2^255+x, 2^256-2^64+x).
+func wideLowPrograms() [][]byte {
+	var progs [][]byte
+	max := wrap(new(big.Int).Sub(two256, one))
+	wide := func(low int64) []*big.Int {
+		l := big.NewInt(low)
+		return []*big.Int{new(big.Int).Add(pow2(64), l), new(big.Int).Add(pow2(65), l), new(big.Int).Add(pow2(128), l),
+			new(big.Int).Add(pow2(255), l), new(big.Int).Add(new(big.Int).Sub(two256, pow2(64)), l)}
+	}
+	// no fault expected: shifts, byte, signextend, reads beyond every source
+	a := eu.NewAsm()
+	a.Push(max.Bytes()).PushInt(0).Op(eu.MSTORE)
+	for _, w := range wide(1) {
+		for _, op := range []byte{eu.SHL, eu.SHR, eu.SAR, eu.BYTE, eu.SIGNEXTEND} {
+			a.Push(max.Bytes()).Push(w.Bytes()).Op(op, eu.POP)
+		}
+		a.Push(w.Bytes()).Op(eu.CALLDATALOAD, eu.POP)
+		a.PushInt(8).Push(w.Bytes()).PushInt(0).Op(eu.CALLDATACOPY)
+		a.Push(max.Bytes()).PushInt(0).Op(eu.MSTORE)
+		a.PushInt(8).Push(w.Bytes()).PushInt(0).Op(eu.CODECOPY)
+		a.Push(max.Bytes()).PushInt(0).Op(eu.MSTORE)
+	}
+	progs = append(progs, a.Bytes())
+	// a fault expected: the wide value is a memory offset / length, a return data offset, a jump destination
+	for _, w := range wide(0) {
+		for k := 0; k < 10; k++ {
+			b := eu.NewAsm().Label("here") // offset 0 holds a genuine JUMPDEST: the low bits of w name it
+			switch k {
+			case 0:
+				b.Push(w.Bytes()).Op(eu.MLOAD)
+			case 1:
+				b.PushInt(1).Push(w.Bytes()).Op(eu.MSTORE)
+			case 2:
+				b.PushInt(1).Push(w.Bytes()).Op(eu.MSTORE8)
+			case 3:
+				b.PushInt(1).Push(w.Bytes()).Op(eu.SHA3)
+			case 4:
+				b.PushInt(1).Push(w.Bytes()).Op(eu.RETURN)
+			case 5:
+				b.Push(new(big.Int).Add(w, one).Bytes()).PushInt(0).PushInt(0).Op(eu.CALLDATACOPY) // length 2^64+1
+			case 6:
+				b.PushInt(1).Push(w.Bytes()).PushInt(0).Op(eu.MCOPY)
+			case 7:
+				b.PushInt(0).Push(w.Bytes()).PushInt(0).Op(eu.RETURNDATACOPY)
+			case 8:
+				b.Push(w.Bytes()).Op(eu.JUMP)
+			default:
+				b.PushInt(1).Push(w.Bytes()).Op(eu.JUMPI)
+			}
+			b.Op(eu.STOP)
+			progs = append(progs, b.Bytes())
+		}
+	}
+	return progs
 }
 
 // zeroLengthPrograms: every instruction of the computational set with an (offset, length) operand
@@ -817,7 +890,8 @@ func main() {
 	height = *h
 	eu.Boot(*scratch)
 	tr = vutil.NewTrace(*out)
-	rec = eu.NewRecorder(tr, eu.Options{Values: true})
+	// no generated program needs more than a few hundred steps under the reference semantics
+	rec = eu.NewRecorder(tr, eu.Options{Values: true, MaxSteps: 1500, StepBound: true, MaxFaults: 4, HardSteps: 200000})
 	rec.Install()
 	r := vutil.Rng(*salt)
 	if *script != "" {
@@ -850,8 +924,8 @@ func main() {
 		faults = append(faults, fmt.Sprintf("%s:%d", c, n))
 	}
 	sort.Strings(faults)
-	fmt.Printf("c10: programs=%d steps=%d events=%d vectors=%d tlc_programs=%d matrix_programs=%d\n", stats["programs"], stats["steps"], tr.N,
-		stats["vectors"], stats["tlc_programs"], stats["matrix_programs"])
+	fmt.Printf("c10: programs=%d steps=%d events=%d vectors=%d tlc_programs=%d matrix_programs=%d truncated_runs=%d\n", stats["programs"], stats["steps"], tr.N,
+		stats["vectors"], stats["tlc_programs"], stats["matrix_programs"], stats["truncated_runs"])
 	fmt.Printf("OPS %s\n", strings.Join(ops, " "))
 	fmt.Printf("FAULTS %s\n", strings.Join(faults, " "))
 }
